@@ -55,6 +55,7 @@ func (b *setBuilder) chunk(salt, size int) int {
 	return b.add(&Spec{Kind: "opaque", Nonce: salt, Size: size})
 }
 func (b *setBuilder) bytes(parts ...Part) int { return b.add(&Spec{Kind: "bytes", Parts: parts}) }
+
 // file: mtime in unix seconds (0 = none)
 func (b *setBuilder) file(name int, mtime int64, parts ...Part) int {
 	return b.add(&Spec{Kind: "file", Name: name, MTime: mtime * sec, Parts: parts})
@@ -62,7 +63,9 @@ func (b *setBuilder) file(name int, mtime int64, parts ...Part) int {
 func (b *setBuilder) sset(merge bool, refs ...int) int {
 	return b.add(&Spec{Kind: "sset", Merge: merge, Refs: refs})
 }
-func (b *setBuilder) dir(name, sset int) int { return b.add(&Spec{Kind: "dir", Name: name, SSet: sset}) }
+func (b *setBuilder) dir(name, sset int) int {
+	return b.add(&Spec{Kind: "dir", Name: name, SSet: sset})
+}
 
 func (b *setBuilder) sizeOf(id int) int {
 	// sizes of chunks are given; of bytes blobs: the sum of their parts
@@ -124,9 +127,9 @@ func (b *setBuilder) finish(name string, deliver []int) (*Set, error) {
 				continue
 			}
 			type content struct {
-				signer          int
-				ct, attr, val   string
-				ref             string
+				signer        int
+				ct, attr, val string
+				ref           string
 			}
 			var cs []content
 			for _, s := range g {
@@ -365,6 +368,22 @@ func FixedSets(r *hk.Rand) []*Set {
 		b.claimAt(k, p, "add", "i0", "s4", base+1)
 		push(b, "equal-date-claims", seq(1, 6))
 	}
+	{ // rows at and beyond the size limits of every sorted.KeyValue (key 767, value 63000 bytes): the claim| row
+		// of attr5 with a value that makes the row value 62999 / 63000 / 63001 / ~70000 bytes, a tag whose
+		// 800-byte value pushes the signerattrvalue| KEY over the limit, a camliPath suffix that does so for path|
+		b := &setBuilder{}
+		k := b.key(0)
+		p := b.pn(k, n+18)
+		q := b.pn(k, n+19)
+		const overhead = len("set-attribute") + 1 + len("attr5") + 1 + 1 + 63 // ct|attr|<value>|signer-ref
+		for _, total := range []int{62999, 63000, 63001} {
+			b.claim(k, p, "set", "o5", fmt.Sprintf("s%d", LongBase+total-overhead))
+		}
+		b.claim(k, q, "set", "o5", fmt.Sprintf("s%d", LongBase+70000))
+		b.claim(k, q, "set", "i0", fmt.Sprintf("s%d", LongBase+800))
+		b.claim(k, q, "set", fmt.Sprintf("p%d", LongBase+700), fmt.Sprintf("r%d", p))
+		push(b, "oversized-rows", seq(1, 9))
+	}
 	return sets
 }
 
@@ -409,6 +428,10 @@ func RandomSet(r *hk.Rand, n int, idx int) *Set {
 					}
 				}
 				ct := []string{"set", "add", "del"}[r.Intn(3)]
+				if val[0] == 's' && r.Chance(12) {
+					// a value that no sorted.KeyValue stores (row value > 63000 bytes), or that makes a key too long
+					val = fmt.Sprintf("s%d", LongBase+[]int{800, 62900, 62916, 62917, 70000}[r.Intn(5)])
+				}
 				if prev := claimsOn[pn]; len(prev) > 0 && r.Chance(60) {
 					// the same signer, permanode and attribute within the same second as an earlier claim:
 					// fractions whose RFC 3339 text sorts differently from the times, and equal dates
@@ -555,6 +578,19 @@ func (s *Set) Shapes() []string {
 				}
 			}
 			secs[k] = append(secs[k], sp.Date)
+		}
+	}
+	for _, sp := range s.Specs {
+		if sp.Kind == "claim" {
+			if sp.Drop&1 != 0 {
+				out["shape:claim-row-too-large-for-the-store"] = true
+			}
+			if sp.Drop&^1 != 0 {
+				out["shape:key-too-large-for-the-store"] = true
+			}
+			if sp.Drop == 0 && strings.HasPrefix(sp.Val, "s") && len(sp.Val) >= 7 {
+				out["shape:long-value-within-the-limits"] = true
+			}
 		}
 	}
 	var ks []string
@@ -718,6 +754,9 @@ type Schedule struct {
 	KV       string
 	Corpus   bool
 	Faults   map[int]string // arrival position -> commit|set|delete: that arrival meets a failing sorted.KeyValue
+	// RestartFault "<meta|claim|deleted|missing> <rows>": the restart is preceded by a start whose scan of
+	// that prefix fails after that many rows
+	RestartFault string
 	// ReindexLiveAt > 0: Index.Reindex on the running index after that many arrivals (blobs may be waiting)
 	ReindexLiveAt int
 	// Late: after Order, the running index is reindexed and restarted, and then these blobs (dependencies
@@ -930,6 +969,16 @@ func RunCase(r *hk.Run, s *Set, sc *Schedule, obsEvery bool) caseResult {
 			}
 			if sc.Restart == i+1 {
 				before := op("pend")
+				if sc.RestartFault != "" {
+					// a start that meets a transient read fault in one of its scans must fail (and a later
+					// start succeed), or else load exactly what a clean start loads
+					out := op("frestart " + sc.RestartFault)
+					r.Hit("fault:restart-scan:" + strings.Fields(sc.RestartFault)[0])
+					if out == "err" {
+						r.Hit("fault:restart-scan:start-failed")
+					}
+					observe(fmt.Sprintf("after the start with a failing %s scan at prefix %d", sc.RestartFault, i+1))
+				}
 				op("restart")
 				after := op("pend")
 				r.Hit("sched:restart")
@@ -1053,6 +1102,10 @@ func Explore(r *hk.Run, s *Set, obs bool, maxPerm int, extra int) {
 		o := orders[r.R.Intn(len(orders))]
 		for k := 1; k < n; k++ {
 			sc := &Schedule{Label: fmt.Sprintf("restart@%d %s", k, idsTok(o)), Order: o, Restart: k, Steps: true, KV: kvOf(j + k), Corpus: corpus}
+			if r.R.Chance(50) {
+				sc.RestartFault = fmt.Sprintf("%s %d", []string{"meta", "claim", "deleted", "missing"}[r.R.Intn(4)], r.R.Intn(3))
+				sc.Label = "f" + sc.Label
+			}
 			compare(sc.Label, RunCase(r, s, sc, obs))
 		}
 	}
@@ -1253,7 +1306,7 @@ func Malformed(r *hk.Run) {
 func MalformedObs(r *hk.Run) {
 	r.Case("malformed")
 	ex := NewExecObj()
-	for _, l := range []string{"obs", "obsr", "frecv 1 commit", "open mem 1", "frecv 1", "frecv 1 boom", "frecv 9 commit", "obs 1", "obs", "obsr", "restart", "obs", "reindex", "obsr", "close", "obs"} {
+	for _, l := range []string{"obs", "obsr", "frecv 1 commit", "frestart meta 0", "open mem 1", "frecv 1", "frecv 1 boom", "frecv 9 commit", "frestart", "frestart rows 1", "frestart meta x", "frestart meta 1", "frestart deleted 0", "obs 1", "obs", "obsr", "restart", "obs", "reindex", "obsr", "close", "obs"} {
 		r.Op(l, ex.Do(strings.Fields(l)))
 	}
 	r.Hit("malformed-stream")
